@@ -22,7 +22,8 @@ Finish == IF l = Len(Rec) THEN PrintT(<<"COUNTS", [i \in 1..NCounters |-> TLCGet
 Fin(F) == LET RO == ReadOrder(F) IN [j \in 1..Len(RO) |-> <<RO[j].name, RO[j].hex>>]
 RECURSIVE CatHex(_)
 CatHex(fin) == IF fin = <<>> THEN "" ELSE Head(fin)[2] \o CatHex(Tail(fin))
-IsFinal(e) == e.ev = "Stop" /\ Ok(e)
+\* "once the logger is shut down": after the explicit shutdown() and again after the drop
+IsFinal(e) == e.ev \in {"Shutdown", "Stop"} /\ Ok(e)
 
 Next ==
     /\ l <= Len(Rec) /\ l' = l + 1
